@@ -7,8 +7,15 @@ comma form of the same card (`_rdcomma`) and must give back the fields, one for 
 
 Helper functions are followed (c12_exec `inline=`): text counts as written when it reaches `write` / `writelines` of the file *value*, a line
 is consumed when `send` / `next` is applied to the iterator *value*, under whatever name a helper receives them.  What rdcards hands to the
-readers is read from the values of the reader calls on every path of a generic card, found through the call graph from rdcards (any loop
-shape, any depth of helpers); when those values cannot be determined the rule reports an analysis error, never a violation.
+readers is read from the values of the reader calls, found through the call graph from rdcards (any loop shape, any depth of helpers); when
+those values cannot be determined the rule reports an analysis error, never a violation.
+
+The choice of the reader is decided end to end on *concrete* first lines (card_lines): one free-field card for every place its first
+separator can sit (first fields of 1 .. 8 characters: index 1 .. 8; padded and large-field spellings of the name), one small-field card per
+name length, one large-field card for every place the writers put the '*' (index 1 .. 7).  rdcards is evaluated with that text as the current
+line - every test on the line is computed, however it is spelled - and the reader call it reaches is then evaluated on the text handed over,
+with the layout handed over: the fields of the card must come back.  A line whose paths disagree (an option of rdcards, a test the evaluation
+cannot compute) is not decided; only a line that every path misreads is a violation.
 """
 from __future__ import annotations
 
@@ -18,7 +25,7 @@ from fractions import Fraction
 from .core import AnchorError, Unsupported
 from .e1_srcmodel import dotted
 from .c12_str import Unk, Const, Param, Opaque, Lit, Fmt, Cat, Strip, Slice, StrOf, CallS, Tup, Len, cat, as_int, is_str, is_num
-from .c12_exec import Engine, Interval, State, walk_value, _FLIP as _FLIPPED
+from .c12_exec import Engine, Interval, State, walk_value, _as_sequence
 from .c12_text import (FIELD, is_field, field_of, atoms, atom_width, width, all_blank, rstrip, slice_text, first_char, split_lines,
                        split_commas, parse_fixed, FLOATW, BLANKS)
 
@@ -427,8 +434,13 @@ def _reaching(mod, targets):
 
 
 class _DispatchEngine(Engine):
-    """rdcards is evaluated for one generic card: a loop body is run once (its test taken to hold), a line asked of the line iterator is
-    the symbol <line>; a path ends once it has handed the line to a reader"""
+    """rdcards is evaluated for one card: a loop body is run once (its test taken to hold), a line asked of the line iterator is the
+    first line of the card (`self.line`: concrete text, or the symbol <line>); a path ends once it has handed the line to a reader"""
+
+    @property
+    def line(self):
+        # shared by the engines of followed helpers (they are created by the base class): kept on the context
+        return self.ctx.__dict__.get("_c12_dispatch_line", LINE)
 
     def _seen_reader(self, st, since):
         return any(e[0] in READERS for e in st.effects[since:])
@@ -452,22 +464,75 @@ class _DispatchEngine(Engine):
                 out.append((st2, o, pay))
         return out
 
+    def _is_card_loop(self, s):
+        """may an iteration of the loop take a line from the iterator or reach a reader?  (by name: a loop that cannot is an ordinary loop)"""
+        reach = self.ctx.__dict__.get("_c12_reach")
+        if reach is None:
+            reach = self.ctx.__dict__["_c12_reach"] = _reaching(self.mod, READERS)
+        for n in ast.walk(s):
+            if isinstance(n, ast.Name) and isinstance(n.ctx, ast.Load) and (n.id in reach or n.id == "next"):
+                return True
+            if isinstance(n, ast.Attribute) and n.attr in ("send", "__next__"):
+                return True
+            if isinstance(n, (ast.Yield, ast.YieldFrom)):
+                return True
+        return False
+
     def while_loop(self, s, st, bound=400):
+        if not self._is_card_loop(s):
+            # a scan of the line with a counter: run as written when every test is decided
+            try:
+                return Engine.while_loop(self, s, st.fork(), bound)
+            except Unsupported:
+                pass
         return self._generic(s, st)
 
     def _for_loop(self, s, st, it):
         if it == LINES:
-            return self._generic(s, st, LINE)
+            return self._generic(s, st, self.line)
         if isinstance(it, Tup) and len(it.items) <= 2:
             return Engine._for_loop(self, s, st, it)
+        seq = _as_sequence(it)
+        if isinstance(seq, Tup) and len(seq.items) <= 200 and all(isinstance(x, Lit) or is_num(x) for x in seq.items):
+            return Engine._for_loop(self, s, st, seq)       # a loop over concrete characters / numbers (a scan of the line): run as written
         return self._generic(s, st, Unk("loop item"))
 
 
-def rdcards_dispatch(ctx):
-    """(field width, continuation characters) the generic reader hands to _rdfixed with / without a '*' in the name field, and the
-    continuation characters of the comma reader: read from the *values* of the reader calls reached from rdcards - directly or through
-    helpers (call graph), in whatever loop - on every path of a generic card.  The line iterator is the value of a call to a generator
-    of the module, the current line is what `next` / `send` of that value gives."""
+# ---- the cards the dispatch is decided on: one concrete first line for every way a card of the property's domain can begin
+CARD = ("1", "2.5", "", "ABC")                      # an integer, a real, a blank and a string field
+NAMES = ("A", "AB", "ABC", "GRID", "CARDX", "CARDXY", "CARDXYZ", "CARDXYZW")          # first fields of 1 .. 8 characters
+
+
+def card_lines():
+    """-> [(form, what, text)] with form 'comma' | 'small' | 'large'.  The first field of a card has at most 8 characters, so the first
+    separator of a free-field card sits at index 1 .. 8; the writers end the name of a large-field card with '*', i.e. at index 1 .. 7"""
+    body = ",".join(CARD)
+    out = []
+    for nm in NAMES:
+        out.append(("comma", f"first field of {len(nm)} character{'s' if len(nm) > 1 else ''}, first separator at index {len(nm)}", f"{nm},{body}\n"))
+    out.append(("comma", "large-field spelling of an 8-character first field, '*' at index 7, first separator at index 8", f"CARDXYZ*,{body}\n"))
+    out.append(("comma", "large-field spelling of the name, first separator at index 5", f"GRID*,{body}\n"))
+    out.append(("comma", "name padded with blanks to 8 characters, first separator at index 8", f"GRID    ,{body}\n"))
+    out.append(("comma", "blanks around the fields", "GRID, " + " , ".join(CARD) + "\n"))
+    for nm in NAMES:
+        out.append(("small", f"name of {len(nm)} character{'s' if len(nm) > 1 else ''}",
+                    f"{nm:<8s}{CARD[0]:>8s}{CARD[1]:>8s}{CARD[2]:8s}{CARD[3]:<8s}\n"))
+    for nm in NAMES[:7]:
+        out.append(("large", f"'*' at index {len(nm)}", f"{nm + '*':<8s}{CARD[0]:>16s}{CARD[1]:>16s}{CARD[2]:16s}{CARD[3]:<16s}\n"))
+    return out
+
+
+CARD_VALUES = [BLANK if t == "" else Lit(t) for t in CARD]
+
+
+def dispatch_calls(ctx, line):
+    """the reader calls rdcards makes for a card whose first line is `line` (concrete text, or the symbol <line>), on every path through its
+    option handling: [(reader, arguments by the reader's signature, call node)], distinct ones.  The calls are read from the *values* reached
+    from rdcards - directly or through helpers (call graph), in whatever loop.  The line iterator is the value of a call to a generator of
+    the module, the current line is what `next` / `send` of that value gives; every test on the line is decided on its text."""
+    cache = ctx.__dict__.setdefault("_c12_dispatch", {})
+    if line in cache:
+        return cache[line]
     fn = ctx.src.func(BULK, "rdcards")
     mod = ctx.src.mod(BULK)
     reach = _reaching(mod, READERS)
@@ -481,64 +546,99 @@ def rdcards_dispatch(ctx):
         if name in mod.funcs and name not in st.env and _is_generator(mod.funcs[name]):
             return LINES
         if name == "next" and args and args[0] == LINES:
-            return LINE
+            return line
         if isinstance(node.func, ast.Attribute) and node.func.attr in ("send", "__next__") and eng.ev(node.func.value, st) == LINES:
-            return LINE
+            return line
         return NotImplemented
 
-    eng = _DispatchEngine(ctx, BULK, fn, env={}, lenient=True, call=call, inline=follow)
+    eng = _DispatchEngine(ctx, BULK, fn, env={}, lenient=True, call=call, inline=follow, exceptions=True)
+    ctx.__dict__["_c12_dispatch_line"] = line
     eng.max_states = 40000              # option handling before the card loop doubles the paths a few times; they are cheap
     try:
         leaves = eng.run()
     except Unsupported as e:
         raise Unsupported(f"rdcards: {e}")
-    found = {}
-    comma = set()
-    order = []
-    unbound = []
-    first_stripped = set()
-    where = None
-    seen = set()
+    out = []
     for lf in leaves:
-        s2 = lf.state
-        star = None
-        for f in s2.facts:
-            vals = f[3] if len(f) > 3 else None
-            if not vals:
-                continue
-            op, a, b = vals
-            pol = _star_test(op, a, b)
-            if pol is not None:
-                star = (f[1] == pol)
-        for nm, args, kw, node in s2.effects:
+        for nm, args, kw, node in lf.state.effects:
             if nm not in READERS or args is None:
                 continue
-            where = where or node
-            args = _by_signature(ctx, nm, args, kw)
-            if len(args) < 3 or (id(node), star) in seen:
+            full = _by_signature(ctx, nm, args, kw)
+            item = (nm, tuple(full[:4 if nm == "_rdfixed" else 3]), node)           # iterator, line, layout: what decides the fields read
+            if not any(o[0] == item[0] and o[1] == item[1] for o in out):
+                out.append(item)
+    cache[line] = out
+    return out
+
+
+def _read_through(ctx, calls):
+    """run each reader call of one concrete card line -> [(verdict, detail)] with verdict 'ok' | 'wrong' | 'order' | 'open'"""
+    res = []
+    for nm, args, node in calls:
+        fixed = nm == "_rdfixed"
+        it, s = (args + (None, None))[:2]
+        shown = f"{nm}({', '.join(_short(a) for a in args[:4 if fixed else 3])}, ...)"
+        if s == LINES or isinstance(it, Lit):
+            res.append(("order", shown))
+            continue
+        n = as_int(args[2]) if fixed and len(args) > 2 and args[2] is not None and is_num(args[2]) else None
+        cc = args[3 if fixed else 2] if len(args) > (3 if fixed else 2) else None
+        if it != LINES or not isinstance(s, Lit) or not isinstance(cc, Lit) or (fixed and (n is None or n <= 0)):
+            res.append(("open", f"the arguments of {shown} are not determined"))
+            continue
+        try:
+            got, _ = run_reader(ctx, nm, [s], n, cc.s, fixed)
+        except Crash as e:
+            res.append(("wrong", {"handed to": shown, "problem": str(e)}))
+            continue
+        except Unsupported as e:
+            res.append(("open", f"{shown}: the reader is not modelled on this text ({e})"))
+            continue
+        ok = trim(got, BLANK) == CARD_VALUES
+        res.append(("ok" if ok else "wrong", {"handed to": shown, "fields read": [_short(x) for x in trim(got, BLANK)][:8],
+                                              "fields of the card": [_short(x) for x in CARD_VALUES]}))
+    return res
+
+
+def rdcards_dispatch(ctx):
+    """what the generic reader does with the first line of a card, decided on concrete lines (card_lines): per line the reader it is handed
+    to, the text handed over and the layout arguments; the (field width, continuation characters) of fixed-field cards with / without a '*'
+    ending the name, the continuation characters of the comma reader, and per line whether the reader chosen returns the card's fields"""
+    found, comma, order, unbound, stripped = {}, set(), [], [], set()
+    where = None
+    per_line = []
+    for form, what, text in card_lines():
+        calls = dispatch_calls(ctx, Lit(text))
+        res = _read_through(ctx, calls)
+        node = calls[0][2] if calls else None
+        where = where or node
+        # the layout a line is read with counts only when every path hands the line over with that layout: where the paths differ, a test
+        # on the line was not decided (or an option of rdcards chooses) - reported per line below as not decided, never as a wrong layout
+        layouts = {(nm, args[2:4] if nm == "_rdfixed" else args[2:3]) for nm, args, _ in calls}
+        for (nm, args, _), (verdict, detail) in zip(calls, res):
+            if verdict == "order":
+                order.append(nm)
                 continue
-            seen.add((id(node), star))
-            has_line = [a is not None and any(n == LINE for n in walk_value(a)) for a in args[:2]]
-            if has_line[0] or args[1] == LINES:
-                order.append(nm)                                 # provably the wrong way round
-            elif args[0] != LINES or not has_line[1]:
-                unbound.append(f"{nm}({', '.join(_short(a) for a in args[:2])}, ...)")
-            if nm == "_rdfixed" and args[1] is not None:
-                first_stripped.add(any(isinstance(n, Strip) and n.chars is None and n.side in ("r", "b") for n in walk_value(args[1])))
-            if nm == "_rdfixed" and len(args) >= 4:
-                if star is None:
-                    unbound.append("_rdfixed reached without a decided test for '*' in the first 8 columns")
-                else:
-                    found.setdefault(star, set()).add((args[2], args[3]))
-            if nm == "_rdcomma":
+            if verdict == "open" and isinstance(detail, str) and "not determined" in detail and detail not in unbound:
+                unbound.append(detail)
+            if len(layouts) != 1:
+                continue
+            if nm == "_rdfixed" and form in ("small", "large") and len(args) >= 4:
+                found.setdefault(form == "large", set()).add((args[2], args[3]))
+                if isinstance(args[1], Lit):
+                    stripped.add(args[1].s == args[1].s.rstrip(BLANKS))
+            if nm == "_rdcomma" and form == "comma" and len(args) >= 3:
                 comma.add(args[2])
+        per_line.append((form, what, text, res, node))
     if where is None:
-        raise AnchorError("rdcards: no path of a generic card reaches _rdfixed / _rdcomma")
-    return found, comma, where, order, unbound, first_stripped == {True}
+        raise AnchorError("rdcards: no path of a card reaches _rdfixed / _rdcomma")
+    return found, comma, where, order, unbound, stripped == {True}, per_line
 
 
 def _short(v):
     from .c12_float import describe
+    if v is None or v == LINES or v == BLANK:
+        return "None" if v is None else "<line iterator>" if v == LINES else "<blank>"
     return describe(v)
 
 
@@ -551,35 +651,6 @@ def _by_signature(ctx, name, args, kw):
     return full
 
 
-def _star_test(op, a, b):
-    """is the recorded comparison 'the first 8 columns contain a *' -> polarity (True: the test is true when there is one)"""
-    def in_head(v):
-        for n in walk_value(v):
-            if isinstance(n, Slice) and n.lo is None and as_int(n.hi) == 8:
-                return True
-        return False
-    if op == "truth":
-        # `if head.count("*"):`  -  a count is true when there is one (find / index have no such reading: -1 is true as well)
-        if isinstance(a, Opaque) and a.name == ".count" and len(a.args) == 2 and a.args[1] == Lit("*") and in_head(a.args[0]):
-            return True
-        return None
-    if isinstance(op, (ast.In, ast.NotIn)) and a == Lit("*") and in_head(b):
-        return isinstance(op, ast.In)
-    if is_num(a) and not is_num(b) and type(op) in _FLIPPED:
-        a, b, op = b, a, _FLIPPED[type(op)]()
-    if isinstance(a, Opaque) and a.name in (".find", ".index") and len(a.args) == 2 and a.args[1] == Lit("*") and in_head(a.args[0]) and is_num(b):
-        if (isinstance(op, ast.Gt) and b == -1) or (isinstance(op, ast.GtE) and b == 0) or (isinstance(op, ast.NotEq) and b == -1):
-            return True
-        if (isinstance(op, ast.LtE) and b == -1) or (isinstance(op, ast.Lt) and b == 0) or (isinstance(op, ast.Eq) and b == -1):
-            return False
-    if isinstance(a, Opaque) and a.name == ".count" and len(a.args) == 2 and a.args[1] == Lit("*") and in_head(a.args[0]) and is_num(b):
-        if (isinstance(op, ast.Gt) and b == 0) or (isinstance(op, ast.GtE) and b == 1) or (isinstance(op, ast.NotEq) and b == 0):
-            return True
-        if (isinstance(op, ast.LtE) and b == 0) or (isinstance(op, ast.Lt) and b == 1) or (isinstance(op, ast.Eq) and b == 0):
-            return False
-    return None
-
-
 WRITERS = (("wtcard8", "format_float8", "GRID", 8, 8), ("wtcard16", "format_float16", "GRID*", 16, 4), ("wtcard16d", "format_double16", "DMIG*", 16, 4))
 
 
@@ -587,10 +658,28 @@ def r3_card_grid(ctx):
     ctx.assume("C12-R3: a field value fits the column it is written into (integers of at most W digits, strings of at most W characters); "
                "names and string fields hold no '$', ',' or '*'")
     # ---- what the generic reader expects
-    found, comma, loop, order, unbound, first_stripped = rdcards_dispatch(ctx)
+    found, comma, loop, order, unbound, first_stripped, per_line = rdcards_dispatch(ctx)
     if unbound:
         ctx.error("rdcards: the arguments of a reader call are not determined", loop, unbound[:4])
     ctx.check(not order, "rdcards: the readers receive the line iterator first and the current line second", loop, order or None)
+    # the choice of the reader, end to end: whichever reader a line is handed to (with whatever layout, after whatever preparation of the
+    # text) must return the fields of the card - so a free-field card is recognised wherever its first separator can sit (index 1 .. 8) and
+    # a large-field card wherever the writers put the '*' (index 1 .. 7), by whatever test
+    forms = {"comma": "free-field (comma-separated)", "small": "small-field", "large": "large-field"}
+    for form, what, text, res, node in per_line:
+        inst = f"rdcards: the {forms[form]} card {text.rstrip()!r} ({what}) is handed to a reader that returns its fields one for one"
+        verdicts = {v for v, _ in res}
+        if not res:
+            ctx.error(inst + ": no path hands the line to _rdfixed / _rdcomma", loop)
+        elif verdicts == {"ok"}:
+            ctx.ok(inst, node)
+        elif verdicts <= {"wrong", "order"} and "wrong" in verdicts:
+            ctx.fail(inst, node, [d for v, d in res if v == "wrong"][:2])
+        elif verdicts == {"order"}:
+            pass                            # reported above
+        else:
+            # readers that differ with an option of rdcards, or a call whose arguments / text the evaluation does not determine
+            ctx.error(inst + ": not decided", node, [d for v, d in res if v != "ok"][:3])
     conch = {}
     for star, W in ((True, 16), (False, 8)):
         got = found.get(star, set())
